@@ -234,7 +234,7 @@ def specs(tier, seed):
     ns = (2, 3, 7, 10, 30) if tier == 'quick' else tuple(range(2, 101))
     for n in ns:
         S.append(('fp', n, 'sec', 'mul', tier, 0))
-        if tier == 'thorough':
+        if tier == 'thorough' and n in (2, 3, 5, 7, 10, 20, 30, 50, 100):
             for e in (1, 2, 3):
                 S.append(('fp', n, 'sec', 'dec%d' % e, tier, 0))
         elif n == 7:
@@ -263,7 +263,7 @@ BOUNDS = {
              'exploration per n in {2,3,7,10,30}, dt ANY double in [1e-4,1e4], T = dt*n through TimeInterval.__mul__; decimal '
              'dt = m/10^e with m <= 500, e in {1,2} and T the decimal literal n*m/10^e for n = 7; units sec (all n), '
              'min/hour/ms (n=10); continuation after a first run of 2 and 7 steps; 90 s (240 s decimal) per query, z3 raced against cvc5',
-    'thorough': 'Float64 mode for every n in 2..100, decimal dt with m <= 4000 and e in {1,2,3} for every n, 400 s per query',
+    'thorough': 'Float64 mode for every n in 2..100 (T = dt*n); decimal dt with m <= 4000 and e in {1,2,3} for n in {2,3,5,7,10,20,30,50,100}; 400 s per query',
 }
 OUTSIDE = 'n > 100; dt outside [1e-4,1e4]; n symbolic (probe: unknown); dt and T in different units in FP mode'
 STUBS = sim.STUBS + ['FP mode: gearpy.solver.np.arange = exact model of numpy (_calc_length ceil of the double quotient, '
